@@ -65,7 +65,11 @@ def main():
             if isinstance(e, (KeyboardInterrupt, SystemExit)):
                 raise
             res = Err(type(e).__name__)
-        out.write(enc(res) + "\n")
+        try:
+            line = enc(res)
+        except Exception:                # a result the wire format cannot carry (e.g. library objects inside a key)
+            line = enc(Err("UnencodableResult"))
+        out.write(line + "\n")
     out.flush()
 
 if __name__ == "__main__":
